@@ -38,8 +38,10 @@ type Real struct {
 	Tips    map[int]int   // branch -> abstract tip, as acknowledged
 	Content map[int][]int // abstract object id -> file content when first read
 	unknown map[int]ksuid.KSUID
-	// Vacuumed collects the abstract ids Vacuum reported as removed.
-	Vacuumed map[int]bool
+	// Vacuumed collects the abstract ids Vacuum reported as removed; LastVacuumed those of
+	// the latest vacuum.
+	Vacuumed     map[int]bool
+	LastVacuumed []int
 }
 
 func BranchName(b int) string {
@@ -131,9 +133,11 @@ func (r *Real) Apply(op Op) error {
 		case "vacuum":
 			var gone []ksuid.KSUID
 			gone, err = lk.Vacuum(ctx, r.PoolN, r.Rev(op.Commit), false)
+			r.LastVacuumed = nil
 			for _, k := range gone {
 				if a, ok := r.ObjA[k]; ok {
 					r.Vacuumed[a] = true
+					r.LastVacuumed = append(r.LastVacuumed, a)
 				}
 			}
 			return err
@@ -295,8 +299,20 @@ func (r *Real) Observe(commits bool) (*StepObs, error) {
 			fresh = append(fresh, pend{ro, toks, err})
 		}
 	}
+	// canonical order of the objects an operation created: by first key in pool order (the
+	// order in which a compaction emits them), then by content
 	sort.SliceStable(fresh, func(i, j int) bool {
-		return fmt.Sprint(fresh[i].toks) < fmt.Sprint(fresh[j].toks)
+		a, b := fresh[i].toks, fresh[j].toks
+		if len(a) > 0 && len(b) > 0 {
+			c := KeyCmp(r.T.Vals[a[0]].MKey, r.T.Vals[b[0]].MKey)
+			if r.Cfg.Desc {
+				c = -c
+			}
+			if c != 0 {
+				return c < 0
+			}
+		}
+		return fmt.Sprint(a) < fmt.Sprint(b)
 	})
 	for _, p := range fresh {
 		if p.err != nil {
@@ -366,4 +382,22 @@ func (r *Real) PredTrue(pred string, toks []int) ([]int, error) {
 		return nil, err
 	}
 	return r.T.Toks(out)
+}
+
+// Reopen opens a second, cold handle on the lake.  lake.Open reads the lake magic value
+// after the zngio reader has already recycled its buffer (readLakeMagic keeps `val` across
+// the next Read), so with other goroutines using zngio concurrently it occasionally fails
+// or panics; that is unrelated to the properties checked here, so it is retried.
+func (r *Real) Reopen() (l2 *hlib.TLake, err error) {
+	for try := 0; try < 8; try++ {
+		err = protect(func() error {
+			var e error
+			l2, e = r.L.Reopen()
+			return e
+		})
+		if err == nil {
+			return l2, nil
+		}
+	}
+	return nil, err
 }
